@@ -26,7 +26,7 @@ func (c08) Rule() string {
 func (c08) RequiredBuckets(tier string) []string {
 	out := []string{"segments:1", "segments:2", "segments:3", "segments:4", "segments:5", "strand:fwd", "strand:rev", "strand:mixed",
 		"mod:^", "mod:$", "mod:^$", "mod:^^", "mod:$$", "window:inside", "window:extends-5'", "window:extends-3'", "window:zero-length", "window:crosses-junction",
-		"modifier-roundtrip", "locator:modifier", "locator:point", "locator:range", "locator:complement", "locator:selector", "locator:selector@mod", "locator:@mod", "locator:no-match"}
+		"modifier-roundtrip", "locator:modifier", "locator:point", "locator:range", "locator:complement", "locator:selector", "locator:selector@mod", "locator:@mod", "locator:no-match", "locator:table-not-sorted"}
 	out = append(out, "cmd:extract", "cmd:extract -v", "extract:two-locators", "stream:records-independent")
 	return out
 }
@@ -129,6 +129,7 @@ func (m c08) checkResize(c *fw.Ctx, loc gts.Location, reg gts.Region, seqB []byt
 		c.ViolateX("Resize:"+panicClass(site, val), enc, "no panic", fmt.Sprint(val), stack, nil)
 		return
 	}
+	c.Hold(enc, func() string { return fmt.Sprintf("%v head=%d tail=%d len=%d", res, res.Head(), res.Tail(), res.Len()) })
 	lo, hi := model.ModWindow(kind, p, q, n)
 	judgeRegion(c, enc, seq, seqB, ss, res, lo, hi, "Resize")
 }
@@ -168,7 +169,14 @@ type locatorCase struct {
 
 func (m c08) checkLocator(c *fw.Ctx, r *rand.Rand, tab []gts.Feature, seqB []byte) {
 	L := len(seqB)
-	host := gts.New(nil, gen.SortedTable(gen.CloneTable(tab)), append([]byte(nil), seqB...))
+	ht := []gts.Feature(gen.SortedTable(gen.CloneTable(tab)))
+	if r.Intn(2) == 0 && len(ht) > 1 {
+		// a table that is not in sorted order (records are read in file order,
+		// tables are assembled by hand): "table order" is the order given.
+		r.Shuffle(len(ht), func(i, j int) { ht[i], ht[j] = ht[j], ht[i] })
+		c.Bucket("locator:table-not-sorted")
+	}
+	host := gts.New(nil, ht, append([]byte(nil), seqB...))
 	table := host.Features()
 	// X part.
 	type xr struct {
